@@ -42,6 +42,8 @@ pub struct Mix {
     pub unauth: u32,
     #[serde(default)]
     pub garbage: u32,
+    #[serde(default)]
+    pub key_mismatch: u32,
 }
 
 #[derive(Clone, Debug, Serialize, Deserialize)]
@@ -250,7 +252,7 @@ impl Gen {
         let m = self.cfg.mix.clone();
         let weights = [
             m.send, m.poll, m.flush, m.job_save, m.job_maintain, m.restart_clean, m.restart_flush_kill, m.restart_lose_index, m.purge, m.tick, m.jump, m.back_jump, m.store_offset, m.get_offset,
-            m.delete_offset, m.audit, m.get_topic, m.partitions, m.update_topic, m.catalogue, m.groups, m.users, m.connect, m.job_heartbeat, m.job_clean_tokens, m.unauth, m.garbage,
+            m.delete_offset, m.audit, m.get_topic, m.partitions, m.update_topic, m.catalogue, m.groups, m.users, m.connect, m.job_heartbeat, m.job_clean_tokens, m.unauth, m.garbage, m.key_mismatch,
         ];
         let choice = self.rng.pick_weighted(&weights);
         let c = self.rng.usize_below(self.cfg.clients);
@@ -403,6 +405,7 @@ impl Gen {
             (24, _) => Op::RunJob(Job::CleanTokens),
             (25, _) => Op::UnauthProbe { which: self.rng.below(30) as u32 },
             (26, _) => Op::Garbage { seed: self.rng.next_u64() },
+            (27, _) => Op::RestartKeyMismatch { off: self.rng.chance(0.3) },
             _ => Op::Tick(1 + self.rng.below(100)),
         }
     }
